@@ -9,7 +9,9 @@ VERIF = os.path.dirname(os.path.dirname(os.path.abspath(__file__)))
 CHECKS = {
     'C01': ('exploration',
             'bounded-exhaustive program enumeration x exhaustive environment-tape exploration, differential against the unconverted function',
-            'Every program of 8 focused statement menus up to the size bound (quick: 17.8k programs) is converted under two '
+            'Every program of 16 focused statement menus (core, jumps, try, closures incl. aliased / transitive / two-level ones, '
+            'expressions, attribute / subscript state, recursive callees, partials, globals, nested and starred loop targets, '
+            'composite-index stores) up to the size bound (counts in the evidence) is converted under two '
             'configurations and executed on every environment tape (all branch/iteration decision sequences up to the cap); '
             'return value / exception type, ordered effect log (calls, iterator consumption, context managers) and post-state '
             'must equal the unconverted function. Violations are delta-reduced; the signature is the reduced witness.',
@@ -18,8 +20,8 @@ CHECKS = {
             'DESIGN.md 2/C01'),
     'C02': ('exploration',
             'bounded-exhaustive program enumeration; each converted program is traced once with a functional (tracing) operator backend and the term is evaluated on the whole input domain',
-            'Side-effect-free, total, definitely-assigned programs with data conditions over traced arguments (4 menus incl. closures, '
-            'nonlocal writers, attribute/constant-key state; ~7.2k programs quick) are converted with a tracing backend that runs both '
+            'Side-effect-free, total, definitely-assigned programs with data conditions over traced arguments (6 menus incl. closures, '
+            'aliased / transitive closures, nonlocal writers, attribute/constant-key state, tuple-target loops) are converted with a tracing backend that runs both '
             'branches of every traced conditional from one get_state() snapshot, keeps select() terms for the first nouts entries, '
             'and traces loop test/body once on placeholders injected by set_state(); the resulting term is evaluated on 144 inputs '
             'and must equal the original everywhere.',
@@ -29,19 +31,21 @@ CHECKS = {
             'DESIGN.md 2/C02'),
     'C03': ('exploration',
             'bounded-exhaustive program enumeration x exhaustive tapes, run with a contract-monitoring operator backend injected through PyToPy.get_extra_locals',
-            'Every dynamic if_stmt/while_stmt/for_stmt/if_exp/and_/or_/not_ invocation of ~25k programs (C01 menus, plus a '
+            'Every dynamic if_stmt/while_stmt/for_stmt/if_exp/and_/or_/not_ invocation of ~30k programs (C01 menus, plus a '
             'loop-directive variant of every program with a loop) on all tapes is checked: names/getter/setter lengths and '
             'positions (identity of each entry with the named variable in the calling frame), getter purity, set(get) identity, '
             'write-then-read round trip with sentinels, callback arities, nouts range, outputs-first (restoring entries >= nouts '
             'after every if_stmt must not change behaviour), opts = iterate_names + exactly the directives written in that loop, '
             'lazy and_/or_/if_exp.',
             'Undefined entries are skipped by identity checks; outputs-first restore not applied to the global-variable menu; '
-            'bounds as C01.',
+            'bounds as C01. Documented lambda limitation counted, not reported. Known finding: writing back a composite entry '
+            'whose base variable is unbound on the path taken is not a no-op.',
             'DESIGN.md 2/C03'),
     'C04': ('exploration',
             'exhaustive construct x context-chain enumeration; static scan of the generated AST + operator invocation counts vs. construct execution counts on all tapes',
-            'Each of 11 constructs is placed in every chain of up to 2 (thorough 3) syntactic contexts (9 statement contexts, 26 '
-            'expression contexts, 11 bridges; ~13.8k programs quick); the generated code must contain no native '
+            'Each of 11 constructs is placed in every chain of up to 2 (thorough 3) syntactic contexts (9 statement contexts, 29 '
+            'expression contexts incl. a 120-deep operator chain, 11 bridges; ~16.5k programs quick); programs with print are '
+            'converted a second time by the same transpiler with BUILTIN_FUNCTIONS; the generated code must contain no native '
             'if/while/for/break/continue/early return/and/or/not/ifexp/call outside the documented exceptions, and on every tape '
             'converted_call/for_stmt/while_stmt counts equal (if_stmt/and_/or_/not_/if_exp counts are at least) the construct '
             'executions of the instrumented original.',
@@ -51,15 +55,17 @@ CHECKS = {
     'C05': ('exploration',
             'bounded-exhaustive skeleton enumeration x exhaustive branch-decision tapes; probe trace of the instrumented program must be a path of cfg.build()',
             'All skeletons over if/while/for(+else)/break/continue/return/try-except-else-finally/with/raise/def/lambda/class up to '
-            'size 5 (plus jump- and exception-focused menus to size 5/6; ~0.8M programs, ~2.7M executions in quick) are built into '
-            'CFGs; static well-formedness (mirror links, index completeness, stmt_prev/stmt_next recomputed from lexical containment) '
+            'size 5 (plus jump-, exception- and bare-except-focused menus to size 5/6/8; ~0.85M programs, ~2.8M executions in quick) are '
+            'built into CFGs; for all programs up to size 4 and a fixed sixteenth of the rest the graphs are re-checked after the '
+            'dataflow analyses ran on them; static well-formedness (mirror links, index completeness, stmt_prev/stmt_next recomputed from lexical containment) '
             'and, for every tape, the executed statement sequence must be a path from entry to an exit/raise node.',
             'Bounded: program size, tape cap 8/10 with <=4/5 non-default answers; only explicit raise; executions are cut where an '
             'exception propagates through a finally (documented as unmodelled).',
             'DESIGN.md 2/C05'),
     'C06': ('exploration',
             'bounded-exhaustive program enumeration x exhaustive tapes; last-writer log of the instrumented run vs. DEFINITIONS / DEFINED_VARS_IN',
-            'Every program of 6 menus up to the size bound x prologue variants is analysed; on every tape each executed read must '
+            'Every program of 10 menus (incl. aliased / transitive / two-level closures, nested and starred loop targets) up to the '
+            'size bound x prologue variants is analysed; on every tape each executed read must '
             'carry the definition generated by its dynamic last writer, each dynamic entry of if/for/while/try must list all bound '
             'locals, and the solution is re-checked as a fixed point of the analysis\' own transfer function.',
             'Variables = simple local names; reads/writes derived from the statement ASTs of the generated programs; log cut at '
@@ -74,8 +80,9 @@ CHECKS = {
             'DESIGN.md 2/C07'),
     'C08': ('exploration',
             'bounded-exhaustive enumeration of scope trees x binding constructs; oracle = CPython symtable and per-line bytecode',
-            'Every list of up to 3 (thorough 4) binding/reading constructs over two names, nested through def (each parameter kind, '
-            'default, annotation, decorator), lambda, class and if to depth 3, that CPython accepts (~208k programs quick) is analysed; '
+            'Every list of up to 3 (thorough 4) binding/reading constructs (incl. slice bounds, tuple indices, slice stores, f-string '
+            'format specs) over two names, nested through def (each parameter kind, positional and keyword-only default, annotation, '
+            'decorator), lambda, class and if to depth 3, that CPython accepts (~0.3M programs quick) is analysed; '
             'per function scope locals/globals/nonlocals/params/closure variables must equal symtable\'s, and per statement the '
             'names loaded/stored/deleted by the line\'s bytecode must be in read/modified/deleted.',
             'Comprehension targets and except-clause names excluded (property text); PEP 709 save/restore stores ignored; '
@@ -84,17 +91,18 @@ CHECKS = {
     'C09': ('exploration',
             'complete enumeration of signature shapes x default kinds, closure shapes and entity kinds; all call bindings per case',
             '1.9k signature shapes (positional-only / positional / *args / keyword-only / **kw with every legal assignment of no / '
-            'immutable / mutable defaults) plus 6 closure shapes x 7 entity kinds: inspect.signature, identity of default objects, '
+            'immutable / mutable defaults) plus 6 closure shapes x 8 entity kinds (incl. falsy receivers and an entity carrying '
+            '__wrapped__): inspect.signature, identity of default objects, '
             '__globals__ identity, closure cell identity by name, default expressions and decorators evaluated exactly once, results '
             'of every call binding (130k calls) for to_graph and for the convert() wrapper, rebinding through a sibling / nonlocal '
-            'seen on both sides, a second function of the same factory gets its own cells.',
+            'seen on both sides, further functions of the same factory (cells holding equal and different values) get their own cells.',
             'Each case embeds a unique constant so that code objects of different cases never compare equal (cache aliasing is '
             'C10\'s subject).',
             'DESIGN.md 2/C09'),
     'C10': ('model_checking',
             'explicit-state breadth-first search over request histories on the real transpiler against a dict reference model + exhaustive schedule exploration under a cooperative scheduler with preemption bounding',
-            'Histories: BFS (depth 3, thorough 4) over requests {transform, convert() wrapper call, converted_call} x 5 function pools '
-            '(two closures of one factory, equal code in two globals dicts + a defaults-less FunctionType copy, loop functions with '
+            'Histories: BFS (depth 3, thorough 4) over requests {transform, convert() wrapper call, converted_call} x 6 function pools '
+            '(bound methods of two instances with a fresh bound-method object per request, two closures of one factory, equal code in two globals dicts + a defaults-less FunctionType copy, loop functions with '
             'different defaults, lambda, redefinition under the same name/file/line) x 6 option values (two equal-but-distinct, four '
             'differing from them in exactly one field); each state is rebuilt by replaying its history on a fresh transpiler; every '
             'transition must behave like a fresh conversion of that very function object and run the transformation iff the '
@@ -107,19 +115,20 @@ CHECKS = {
             'DESIGN.md 2/C10'),
     'C11': ('exploration',
             'exhaustive enumeration of adversarial identifier x role x control skeleton; differential execution on all tapes + Namer.new_symbol interception',
-            'Each name of the converter vocabulary (19 quick; + numbered variants and pairs thorough) is placed in 12 roles (state '
+            'Each name of the converter vocabulary (22 quick; + numbered variants and pairs thorough) is placed in 16 roles (exception-'
+            'handler name, handler nested in a handler, name first used after the block, lambda parameter inside a nested def, state '
             'variable, assigned only, read only, parameter, global read/declared, closure variable, nested function name, loop '
             'target, lambda parameter, global callable, global read only from a nested function) in 7 control skeletons: conversion '
             'must succeed, behaviour must equal the original on every tape, no name returned by Namer.new_symbol and no binding '
             'introduced by the converter may coincide with an identifier of the original or of the function namespace.',
-            'ag__ itself (the injected module name) is outside the vocabulary of the property. Known finding: a generated symbol may '
-            'coincide with a parameter of a nested lambda (harmless shadowing).',
+            'ag__ itself (the injected module name) is outside the vocabulary of the property. The former known finding (parameter of a '
+            'nested lambda) and three further clashes were repaired in the repository (fc05063).',
             'DESIGN.md 2/C11'),
     'C12': ('exploration',
             'bounded-exhaustive enumeration of failing programs x callee chains x all tapes; oracle = traceback of the unconverted call',
             'Innermost skeletons with exactly one failing statement (11 failure kinds) under callee chains of depth <= 2 (thorough 3) '
-            'over converted / do_not_convert / lambda / decorated callees with call sites plain, in if, in for (~3.1k programs '
-            'quick): on every tape where the original raises, the exception from the convert() wrapper must have the required '
+            'over converted / do_not_convert / lambda / decorated / functools.wraps-wrapped callees with call sites plain, in if, in for, '
+            'and failing statements inside a local function (~4.5k programs quick): on every tape where the original raises, the exception from the convert() wrapper must have the required '
             'type, contain the original message, name the innermost user frame of the original traceback first, list only frames '
             'of that traceback in order with one converted entry per converted function, and the source map entry of every '
             'executed environment call must lead to its original line.',
@@ -127,30 +136,36 @@ CHECKS = {
             'DESIGN.md 2/C12'),
     'C13': ('fault_enumeration',
             'complete decision-table enumeration against an independently written policy table + enumeration of every recorded call boundary of the conversion pipeline as a fault point',
-            'Table: 20 callable kinds x 5 argument shapes x 4 option values x 3 context statuses, and 101 defining-module names '
+            'Table: 24 callable kinds x 5 argument shapes x 4 option values x 3 context statuses, every ordered pair of (kind, options) '
+            'calls sharing the caches (9216 sequences of length 2 quick), and 101 defining-module names '
             '(each allow-list rule prefix: exact, submodule, two prefix-sharing user modules) x options x statuses = 2.4k rows: result, '
             'target body invocation count, partial objects unchanged, conversion status restored, "was converted" equal to the '
             'documented rules. Faults: a fault-free conversion of 3 targets records ~1.5M call boundaries; deduplicated points '
             '(callee, caller line, occurrence <= 2): all stage points x 12 exception types, fine points x 2 types (quick: every 8th, '
             'offset by VERIF_SEED; thorough: all), strict mode: direct-call result, target run once, exactly one warning, failure '
-            'remembered, cache lock free, status stack unchanged; strict mode propagates.',
+            'remembered for these options only, cache lock free, status stack unchanged; strict mode propagates.',
             'Fault points are identified by (callee, caller line, occurrence), so small run-to-run differences in event order do not '
             'matter; quick tier covers a stride of the fine points (exhaustive only in thorough).',
             'DESIGN.md 2/C13'),
     'C14': ('exploration',
             'exhaustive enumeration of call shapes x value alphabets per substituted builtin, differential against the builtin; context builtins in enumerated nestings x all tapes',
-            '2.5k calls covering every call shape of the 13 substituted builtins (optional parameters absent / positional / keyword) '
+            '2.6k calls covering every call shape of the 13 substituted builtins (optional parameters absent / positional / keyword) '
             'over value alphabets incl. nan/inf/-0.0, numeric and non-numeric strings, one-shot iterators, generators, counting '
             'sources, tied sort keys, dunder-implementing objects and rejected values, each made through overload_of() and through '
-            'converted_call(): equal result, equal item sequence and laziness, equal captured output, same exception type; plus '
-            'eval / locals / globals / super() at nesting depth 0-3 of if/for/while bodies on all tapes.',
+            'converted_call() (keyword calls also through a functools.partial binding the first keyword): equal result, equal item '
+            'sequence and laziness, equal captured output (incl. an argument whose repr is observable), same exception type; '
+            'registry isolation for the 12 type registries; plus eval (also with explicit / empty / None namespaces) / locals / '
+            'globals / super() (also inherited, cooperative, explicit-then-implicit) at nesting depth 0-3 of if/for/while bodies '
+            'on all tapes.',
             'Call shapes the builtin itself rejects may be accepted by the substitute. Known finding: eval cannot see variables '
             'named only inside the evaluated string when called from a functionalised body.',
             'DESIGN.md 2/C14'),
     'C15': ('exploration',
             'complete product of source-layout features; each layout is written to a module file, imported, and parser.parse_entity is compared with the node of ast.parse(module) that defines the object',
             '3 indentation styles x 8 nesting positions x 4 decorator forms x 2 signature forms x every subset of <= 2 (thorough 3) of '
-            '11 body features (~12.9k layouts quick) plus 13 lambda / wrapper layouts per indentation: the recovered tree must be '
+            '11 body features (~12.9k layouts quick) plus 13 lambda / wrapper layouts per indentation, redefinition sequences (file '
+            'rewritten and executed again, 5 variants, def and lambda), the tree handed to transform_ast by an identity transpiler '
+            'and two lambdas of one line converted by the same transpiler: the recovered tree must be '
             'structurally identical to the compiled definition; for lambdas an explicit UnsupportedLanguageElementError is accepted, '
             'a different lambda never.',
             'Known findings: a comment ending in a backslash swallows the next line; backslash-newline inside a raw string is removed '
@@ -158,7 +173,8 @@ CHECKS = {
             'DESIGN.md 2/C15'),
     'C16': ('model_checking',
             'explicit enumeration of call-tree histories against a list-as-stack reference model + exhaustive schedule exploration of the real code under a cooperative scheduler with preemption bounding',
-            'Histories: every call tree with <= 3 nodes (thorough 4) over 13 node kinds x raising node (entry/exit, Exception or '
+            'Histories: every call tree with <= 3 nodes (thorough 4) over 14 node kinds (incl. internal_convert with a context object '
+            'captured outside the parent) x raising node (entry/exit, Exception or '
             'BaseException) x catching ancestor (~103k executions quick) is run on the real wrappers and compared observation by '
             'observation with the reference model; identity of the context object is checked around every call. Schedules: 2-3 '
             'threads each running a tree under the scheduler (scheduling point at every traced line of ag_ctx.py and '
@@ -169,8 +185,8 @@ CHECKS = {
             'DESIGN.md 2/C16'),
     'C17': ('exploration',
             'bounded-exhaustive program x option-set enumeration; the tree handed to loader.load_ast is checked against its own printed, loaded and re-parsed form',
-            'For ~10.6k (program, option set, with/without __future__ import) combinations (C01 menus + a 23-kind literal/expression '
-            'menu up to 2-3 statements, 5 feature sets incl. LISTS) the captured tree must have no node reachable twice, compile, '
+            'For ~12k (program, option set, with/without __future__ import) combinations (C01 menus + a 24-kind literal/expression '
+            'menu up to 2-3 statements, also as the body of a functools.wraps closure, 5 feature sets incl. LISTS) the captured tree must have no node reachable twice, compile, '
             'equal ast.parse of the text written to the module file, to_code must be the source of the loaded function, and every '
             'source-map entry of a marked generated line must lead to the original line with the same marker.',
             'Structural equality ignores positions / annotation pseudo-field / operator singletons; markers = site numbers of '
@@ -178,18 +194,21 @@ CHECKS = {
             'DESIGN.md 2/C17'),
     'C18': ('exploration',
             'exhaustive enumeration of expression shapes x statement positions x configurations; transformed code executed against the original with fully observable operands',
-            '26 expression forms (strict and lazy) with one nested form at every operand position (thorough: depth 3), placed in 21 '
-            'statement positions, under the default and 6 edge-pattern configurations (~57k statements quick): rejected shapes must '
+            '32 expression forms (strict and lazy, incl. displays with * / ** and Ellipsis subscripts) with one nested form at every '
+            'operand position (thorough: depth 3), placed in 21 statement positions, under the default and 6 edge-pattern '
+            'configurations (~80k statements quick), plus sequences of two transformations of one live function: rejected shapes must '
             'raise ValueError; accepted ones must compile, keep temporaries distinct, be in A-normal form (default configuration) '
             'and, executed on 5 truth patterns with value objects that log every operation, produce the same ordered effect log and '
             'result as the original.',
-            'Known finding (one root cause, 4 shape classes): post-order hoisting reorders operands; the text-comparing ANF tests pin '
+            'Known findings: post-order hoisting reorders operands (one root cause, 4 shape classes); unpacking of a starred display '
+            'element is delayed; the text-comparing ANF tests pin '
             'that numbering, so it cannot be repaired without editing tests. Shapes containing a lazy form are never downgraded.',
             'DESIGN.md 2/C18'),
     'C19': ('exploration',
             'bounded-exhaustive program enumeration x typed inputs x all tapes; TYPES / CLOSURE_TYPES annotations vs. the run-time types logged by an instrumented run, with a truthful resolver',
-            '~8.9k programs (three menus: scalar types and joins, tuples / lists / unpacking / chained assignment, local functions '
-            'reading / nonlocal-rebinding) are analysed with a resolver that answers by applying the real operator to representatives; '
+            '~50k programs (menus: scalar types and joins, tuples / lists / unpacking / chained assignment, local functions reading / '
+            'nonlocal-rebinding, functions (re)defined in loops, three function levels, equal literals of different type, break '
+            'in the else clause of nested loops) are analysed with a resolver that answers by applying the real operator to representatives; '
             'on every execution (3 typed inputs x all tapes) every annotated Name load / store must contain the run-time type of its '
             'value and CLOSURE_TYPES must cover the captured variables at each call of the local function; a fixed-point guard '
             'reports non-terminating inference.',
@@ -200,8 +219,9 @@ CHECKS = {
     'C20': ('exploration',
             'complete enumeration of the finite option space (1024 values, 1024^2 pairs) against a reference tuple model',
             'The whole configuration space is enumerated (exhaustive: true): AST round trip, eq/hash over all pairs, '
-            'call_options, uses, alternative spellings, and the options expression embedded by a real conversion for '
-            'the 128 values FunctionScope accepts.',
+            'call_options (fields and value semantics), uses, alternative spellings, and the options expression embedded by a real '
+            'conversion for the 128 values FunctionScope accepts, followed by conversions of the same function under the 7 other '
+            'flag combinations and with each feature toggled (same transpiler).',
             'Reference semantics = the constructor parameters; hash seeds limited to those run (recorded in evidence).',
             'DESIGN.md 2/C20'),
 }
